@@ -61,7 +61,7 @@ func weaveRestarts(r *vk.Rand, ops []hist.Op, ticksAfter bool) []hist.Op {
 }
 
 func checkC20(c *vk.Ctx) {
-	c.Rule = "per backend (badger, pebble, bolt, redis via in-process miniredis): random histories over client ids {a, a:b, é, x_1}, filters {c, b:c, t/#, é/+, $share/g/s/1 (index comparison only), t/1, #} and topics {c, b:c, t/1, é/日, t/1:2} (MQTT 3.1.1/5, clean start 0/1, session expiry absent/300, subscriptions with all options, QoS 0-2 publishes, retained set/clear, withheld acknowledgements so that messages stay in flight, message expiry) with 2-3 orderly restarts (Server.Close, new broker and new hook instance on the same store, store loaded as Serve does) woven in, the last one followed by reconnects and traffic. " +
+	c.Rule = "per backend (badger, pebble, bolt, redis via in-process miniredis): random histories over client ids {a, a:b, é, x_1}, filters {c, b:c, t/#, é/+, $share/g/s/1 (index comparison only), t/1, #} and topics {c, b:c, t/1, é/日, t/1:2} (MQTT 3.1.1/5, clean start 0/1, session expiry absent/300, subscriptions with all options, QoS 0-2 publishes, retained set/clear, withheld acknowledgements so that messages stay in flight, message expiry; a second series with MQTT 5 clients announcing Receive Maximum 1/2 so that some in-flight messages are held back by the broker) with 2-3 orderly restarts (Server.Close, new broker and new hook instance on the same store, store loaded as Serve does) woven in, the last one followed by reconnects and traffic. " +
 		"After every restart the restarted broker's sessions (existence and effective expiry setting), topic-index subscriptions with options, retained messages and in-flight records (payload, PUBLISH/PUBREL, packet id) are compared with the reference model; afterwards the history continues and every delivery, session-present flag, resend and retained replay is judged by the same model as in C03-C09/C14. nontrivial = histories with >=1 restart at which >=1 session, subscription, retained or in-flight record had to be restored"
 	c.Assumptions = []string{"the clock of restored sessions restarts at the restart (the statement requires the expiry settings, not the remaining time)", "delayed wills are not used in this profile (they live in memory only)",
 		"stores are closed cleanly (engine durability is not under test)"}
@@ -92,6 +92,20 @@ func checkC20(c *vk.Ctx) {
 			}}
 		h.run(c)
 		c.Count("backend_"+backend+"_histories", int64(per))
+		// the same with small client Receive Maximum values: messages beyond the quota are held back by the broker and
+		// are in-flight records like the others when the broker stops
+		prm := persistProfile()
+		prm.Name = "persist-rm"
+		prm.Versions = []byte{5}
+		prm.RecvMax = []uint16{1, 2, 0}
+		prm.W["hold"], prm.W["publish"] = 6, 16
+		hrm := *h
+		hrm.Profile, hrm.N, hrm.Label = prm, (per+1)/2, 2100+uint64(bi)
+		// deliveries around held-back messages are judged by C09/C11/C25 (three recorded findings live there); here only
+		// what the restart restores
+		hrm.Rules = []string{"C20/", "C14/session-present"}
+		hrm.run(c)
+		c.Count("backend_"+backend+"_histories_with_receive_maximum", int64(hrm.N))
 		// directed probe for the recorded key-collision finding: ids "a" / "a:b" with filters "b:c" / "c" share the key SUB_a:b:c
 		sub := func(f string) []rc.SubFilter { return []rc.SubFilter{{Filter: f, Options: 1}} }
 		h.directed(c, "sub-key-collision/"+backend, &hist.Config{MaxQoS: 2, RetainAvailable: true}, []string{"a", "a:b", "é", "x_1"}, []hist.Op{
